@@ -63,9 +63,59 @@ def oracle(case, rec, group):
     return out
 
 
+SCENARIOS = ["factorial-sequence", "recursion-block-around-call", "recursion-block-after-call", "instance-kept-alive",
+             "helper-in-callers-block", "underscore-preferred", "nested-helpers-break"]
+
+
+def implicit_context_jobs(rnd, n):
+    jobs = [["factorial-sequence", [0, 3, 6, 2]], ["recursion-block-around-call", [0, 2, 3, 5]], ["recursion-block-after-call", [0, 2, 4, 7]],
+            ["instance-kept-alive", [3, 1, 1, 5, 2]], ["helper-in-callers-block", [2, 0, 3, 5, 8]], ["helper-in-callers-block", [1, 0, 3, 5, 8]],
+            ["underscore-preferred", [1, 3]], ["nested-helpers-break", [3, 1, 2, 3, 4, 5]], ["nested-helpers-break", [3, 0, 2, 3, 4, 5]]]
+    while len(jobs) < n:
+        nm = rnd.choice(SCENARIOS)
+        jobs.append([nm, [rnd.randrange(0, 7) for _ in range(rnd.choice([3, 4, 5]))]])
+    return jobs
+
+
+def implicit_context(cov, rnd, n):
+    """the constructs called without ctx= (the instance is looked up in the caller's locals), as examples/*.py use them:
+    hand-written helper / recursion / kept-alive-instance programs against the same code with native control flow"""
+    import subprocess, os, json, common
+    jobs = implicit_context_jobs(rnd, n)
+    env = common.impl_env()
+    env["PYTHONPATH"] = env["PYTHONPATH"] + os.pathsep + os.path.join(common.VERIF, "harness", "impl")
+    d = common.scratch("pysnark-verif-ictx-")
+    out = []
+    try:
+        r = subprocess.run([common.PY, os.path.join(common.VERIF, "harness", "impl", "implicit_ctx.py"), json.dumps(jobs)], cwd=d, env=env,
+                           stdout=subprocess.PIPE, stderr=subprocess.PIPE, text=True, timeout=900)
+    finally:
+        import shutil; shutil.rmtree(d, ignore_errors=True)
+    recs = [json.loads(ln) for ln in r.stdout.split("\n") if ln.startswith("{")]
+    if len(recs) != len(jobs):
+        out.append(dict(kind="oracle", op="implicit-context", key="crash", what="implicit-context scenarios did not all run (%d of %d)" % (len(recs), len(jobs)),
+                        detail=(r.stdout[-300:] + r.stderr[-800:])))
+    seen = set()
+    for rec in recs:
+        bad = None
+        if rec["exn"]: bad = "raised %s where the native program completes" % rec["exn"]
+        elif rec["got"] != rec["want"]: bad = "returns %r with the oblivious constructs, %r with native control flow" % (rec["got"], rec["want"])
+        elif rec["unsat"]: bad = "constraints %r are violated by the recorded witness" % rec["unsat"]
+        elif not rec["guard_restored"]: bad = "guard not restored after the program"
+        if bad and rec["scenario"] not in seen:
+            seen.add(rec["scenario"])
+            out.append(dict(kind="oracle", op="implicit-context", key=rec["scenario"], what="scenario %s (constructs called without ctx=) on inputs %r %s" % (rec["scenario"], rec["ins"], bad),
+                            case=dict(scenario=rec["scenario"], ins=rec["ins"], source="harness/impl/implicit_ctx.py")))
+    cov["implicit_context_runs"] = len(recs)
+    cov["implicit_context_scenarios"] = SCENARIOS
+    return out
+
+
 def post(cov, cases, recs):
+    import random
     cov["programs"] = len(cases) // 3
     cov["completed"] = sum(1 for r in recs if r["exn"] is None)
+    return implicit_context(cov, random.Random(len(cases) * 7919 + sum(c["ins"][0] for c in cases[:50])), 40 if len(cases) < 2000 else 300)
 
 
 def run(tier, seed):
